@@ -99,7 +99,10 @@ def document_string_to_object(*, document: str, document_type: DocumentType) -> 
         if not isinstance(parsed_document, dict):
             raise ValueError()
         return parsed_document
-    except (ValueError, json.decoder.JSONDecodeError, yaml.YAMLError, RecursionError):
+    except Exception:
+        # json / yaml report malformed text with a variety of exception types: ValueError,
+        # JSONDecodeError, YAMLError, RecursionError for deeply nested text, and IndexError / KeyError /
+        # AttributeError from yaml's scalar constructors for explicit tags such as "!!float ''".
         raise DecodeValidationError(
             f"The document is not a valid {document_type.value} document consisting of key-value pairs."
         )
